@@ -545,7 +545,7 @@ def check_product(chk, fi: FuncInfo) -> None:
 # rules whose violations rest on positive evidence read off the current code (not on a mismatch with the pinned form)
 ROBUST = {
     "components-walk", "greedy-perms", "greedy-perms-skip", "greedy-outer", "greedy-available", "greedy-earlier", "greedy-earlier-exit", "greedy-mark",
-    "greedy-choice", "greedy-record", "product", "product-skip", "product-default", "list-handed-out",
+    "greedy-choice", "greedy-record", "product", "product-skip", "product-default", "list-handed-out", "mapping-list-fact",
 }
 
 
@@ -589,6 +589,11 @@ def run(chk) -> None:
     # the list is a cached answer: a consumer that edits it in place changes what the object answers from then on
     from checks import c12
 
+    from checks import c01e
+
+    why = c01e.mapping_list_fact(chk)
+    if why is not None:
+        chk.ok("mapping-list-fact", "-", f"Mapping2D3D.all_dot_brackets not evaluable ({why[:120]}); its row layout is C06's strand-rows")
     if c12.foreign_mutations(chk, "list-handed-out", ("all_dot_brackets",)) == 0:
         chk.ok("list-handed-out", "package", "no consumer of BpSeq.all_dot_brackets changes the cached list in place")
     if not c01.decided(chk, "enumeration"):
